@@ -9,7 +9,8 @@ ASSUMPTIONS = [
 ]
 TRUSTED_EXTRA = ["Spec/Sem.v (ordered-outcomes semantics), Spec/FindSpec.v (scan) as the reading of 'backtracking semantics in priority order'"]
 
-ATOMS = ["'a'", "'b'", "'ab'", "any", "digit", "not 'a'", "in 'a', 'b'", "not in 'a'", "line start", "line end", "word start", "''"]
+ATOMS = ["'a'", "'b'", "'ab'", "any", "digit", "not 'a'", "in 'a', 'b'", "not in 'a'", "line start", "line end", "word start", "''",
+         "in 'x', 'a', 'ab'", "in 'b', 'ab', 'a', 'aba'"]      # lists of three and more items, later items overlapping: tried in list order
 
 
 def small_programs(depth, rng, cap):
@@ -34,7 +35,7 @@ def run(ctx):
     quick = ctx.quick()
     run_generated(ctx, 700 if quick else 12000, texts_per=6)
     texts = list(all_texts("ab\n", 3 if quick else 5))
-    progs = small_programs(2 if quick else 3, ctx.rng, 250 if quick else 6000)
+    progs = small_programs(2 if quick else 3, ctx.rng, 250 if quick else 4000)
     extra = [{"src": "find all " + p, "texts": texts} for p in progs]
     # mandatory counts well above the small scope, with bodies that can match the empty string (the unrolled form accepts
     # empty iterations, a counted loop would not) and bodies that cannot
